@@ -18,7 +18,10 @@ RULE = ("one evaluation = one queue call made by a real StdScheduler (execution 
         "fire time handed out by a trigger is taken for execution twice and no job runs more often than fire times were taken, at most 200 loop-side queue "
         "calls per burst window (expected about 2 per RetryInterval; the unrepaired loop made > 100 000), and after the faults stop every job still stored in the "
         "inner queue and not paused runs again within 1 s although unrelated far-future jobs keep being scheduled every 15 ms (interrupt tokens must not postpone "
-        "the retry); slower than 1 s but within 3 s = the plan is re-run alone and is a violation only if slow again. A plan is non-trivial when a fault was "
+        "the retry); slower than 1 s but within 3 s = the plan is re-run alone and is a violation only if slow again. Call by call (faults5.go), in every plan: after a loop-side Pop() or Push() has failed with the injected error the loop's next Pop()/Push()/Head() comes no "
+        "sooner than RetryInterval - 1 ms (the Size() at the top of the loop is not a retry); plus (qh faults5) 3 / 4 jobs due at the same moment, every Push() failing from before they are due while "
+        "Pop()/Size()/Head() answer truthfully, RetryInterval 400 ms, three dispatch modes, no API call: every failed push-back of a due job is followed by >= 399 ms without Pop/Push/Head. "
+        "A plan is non-trivial when a fault was "
         "really injected (plans whose call was never reached are counted separately); distinct by (plan kind, side/operation/fault kind hit). "
         "No exact differential run against the Lean model: the theorems cover every fault assignment, clock reading and interrupt pattern of the model, the tie "
         "is the regenerated shape of the loop's switch, calculateNextTick, the retryAt plumbing and the error returns of every API method, plus these runs")
@@ -33,6 +36,8 @@ def run(ctx):
     if ctx.thorough:
         for k, par in enumerate([4, 12, 24], 1):
             results.append(generic.engine_run(ctx, "faults", ["--seed", str(ctx.seed * 1000 + k), "--n", "120", "--par", str(par)], "extra%d" % k, timeout=900))
+    # write side of the queue down with several jobs due at once: back-off after every failed push-back (harness/cmd/qh/faults5.go)
+    results.append(generic.engine_run(ctx, "faults5", ["--seed", str(ctx.seed), "--n", "1" if not ctx.thorough else "4"], "pushdown", timeout=300))
     bad = generic.proof_cov(ctx, extra_trusted=[
         "Go runtime: time.Now/Until/Before use the monotonic clock and a timer never fires before its duration has elapsed (the model's `WellTimed`)",
         "the custom queue is modelled as arbitrary answers per call; for `C15_no_double_fire` / `C15_recovers` as a store on which a failed call has no effect, "
